@@ -130,6 +130,38 @@ func init() {
 			"queryResolver.Todo":  "\n\treturn\n",
 			"todoResolver.Owner":  " err = fmt.Errorf(`raw\n}\n\t{`); return ",
 			"queryResolver.Users": "\n\tpanic(fmt.Errorf(\"not implemented: Users - users\"))\n"}}))
+	// a file that was never gofmt-ed: no white space inside the braces, odd indentation
+	reg("unformatted-file", 2, editCase(EditOpts{
+		Raw: true,
+		BodyFor: map[string]string{
+			"queryResolver.Todos": "panic(fmt.Errorf(\"tight %d\", 1))",
+			"queryResolver.Todo":  "\n      if a0 != nil {\n   panic(fmt.Errorf(\"odd\"))\n }\n\n\n   return nil, nil",
+			"todoResolver.Owner":  "return nil, fmt.Errorf(\"x\")"},
+		ExtraHelpers: []string{"func helperTight()int{return 1}", "var   helperSpaced   =   []int{1,\n2}"}}))
+	// malformed stream: the user's package does not type-check / does not parse when gqlgen runs
+	reg("malformed-type-error-in-body", 2, editCase(EditOpts{
+		BodyFor: map[string]string{"queryResolver.Todos": "\n\tx := undefinedThing(ctx)\n\treturn x.Nope, nil\n"},
+		ExtraHelpers: []string{"func helperBad() int { return alsoUndefined }"}}))
+	reg("malformed-syntax-error", 1, func(w *W, r *rng.R, k int, o *Obs) error {
+		switch k {
+		case 0:
+			w.Sch = fixedSchema()
+			o.Ops = []string{"initial"}
+		default:
+			o.Ops = []string{"syntax error in a.resolvers.go / resolver.go", "repeat"}
+			o.AddOnly = false
+			name := "a.resolvers.go"
+			if w.Layout == "single" {
+				name = "resolver.go"
+			}
+			b, err := os.ReadFile(filepath.Join(w.Dir, name))
+			if err != nil {
+				return err
+			}
+			return os.WriteFile(filepath.Join(w.Dir, name), append(b, []byte("\nfunc broken( {\n")...), 0o644)
+		}
+		return nil
+	})
 	reg("value-receiver", 2, editCase(EditOpts{
 		NamedFor:      map[string][2]string{"queryResolver.Todos": {"", ""}},
 		ValueReceiver: map[string]bool{"queryResolver.Todos": true}}))
